@@ -107,31 +107,39 @@ Section WithPi.
     if rzero (fst b) then (fst a, snd a && snd b)
     else let r := er_add a b in (fst r, snd a && snd b && snd r).
 
-  Definition v_intfn (f : Q -> Z) (a : er) : er :=
-    (RSimple (inject_Z (f (rapprox (fst a)))), snd a).   (* Complex::floor: Exact::new(.., true) *)
+  (* Complex::floor|ceil|round as repaired by fend 05b3863: the rounded value is
+     exact only for a rational argument (a zero multiple of pi included);
+     before that commit it was `Exact::new(.., true)` ([old] = true) *)
+  Definition exact_arg (p : rpat) : bool := match p with RSimple _ => true | RPi q => qzero q end.
 
-  Fixpoint rfeval (e : rexpr) : res er :=
+  Definition v_intfn (old : bool) (f : Q -> Z) (a : er) : er :=
+    (RSimple (inject_Z (f (rapprox (fst a)))), snd a && (old || exact_arg (fst a))).
+
+  Fixpoint rfeval_gen (old : bool) (e : rexpr) : res er :=
     match e with
     | RLit q => Ok (RSimple q, true)
     | RPiC => Ok (RPi 1, true)
-    | RApx e => do v <- rfeval e; Ok (fst v, false)
-    | RNeg e => do v <- rfeval e; Ok (rpneg (fst v), snd v)
-    | RAdd a b => do x <- rfeval a; do y <- rfeval b; Ok (v_add x y)
-    | RSub a b => do x <- rfeval a; do y <- rfeval b; Ok (v_add x (rpneg (fst y), snd y))
-    | RMul a b => do x <- rfeval a; do y <- rfeval b;
+    | RApx e => do v <- rfeval_gen old e; Ok (fst v, false)
+    | RNeg e => do v <- rfeval_gen old e; Ok (rpneg (fst v), snd v)
+    | RAdd a b => do x <- rfeval_gen old a; do y <- rfeval_gen old b; Ok (v_add x y)
+    | RSub a b => do x <- rfeval_gen old a; do y <- rfeval_gen old b; Ok (v_add x (rpneg (fst y), snd y))
+    | RMul a b => do x <- rfeval_gen old a; do y <- rfeval_gen old b;
                   let r := c_mul x y in Ok (fst r, snd x && snd y && snd r)
-    | RDiv a b => do x <- rfeval a; do y <- rfeval b;
+    | RDiv a b => do x <- rfeval_gen old a; do y <- rfeval_gen old b;
                   do r <- er_div x y; Ok (fst r, snd r && snd x && snd y)
-    | RPow e n => do x <- rfeval e; do r <- real_pow (fst x) n; Ok (fst r, snd x && snd r)
-    | RFloor e => do x <- rfeval e; Ok (v_intfn Qfloor x)
-    | RCeil e => do x <- rfeval e; Ok (v_intfn Qceiling x)
-    | RRound e => do x <- rfeval e; Ok (v_intfn qround x)
+    | RPow e n => do x <- rfeval_gen old e; do r <- real_pow (fst x) n; Ok (fst r, snd x && snd r)
+    | RFloor e => do x <- rfeval_gen old e; Ok (v_intfn old Qfloor x)
+    | RCeil e => do x <- rfeval_gen old e; Ok (v_intfn old Qceiling x)
+    | RRound e => do x <- rfeval_gen old e; Ok (v_intfn old qround x)
     end.
 
-  (* classifier of the open defect: an integer-valued function applied to a
-     non-zero multiple of pi (computed from the rational stand-in, flagged exact) *)
+  Definition rfeval : rexpr -> res er := rfeval_gen false.       (* today's code *)
+  Definition rfeval_old : rexpr -> res er := rfeval_gen true.    (* before 05b3863 *)
+
+  (* classifier of the defect repaired by 05b3863 (documentation / regression):
+     an integer-valued function applied to a non-zero multiple of pi *)
   Definition pi_multiple (e : rexpr) : bool :=
-    match rfeval e with Ok (RPi q, _) => negb (qzero q) | _ => false end.
+    match rfeval_old e with Ok (p, _) => negb (exact_arg p) | _ => false end.
 
   Fixpoint known_C03_intfn_of_pi (e : rexpr) : bool :=
     match e with
